@@ -1,4 +1,5 @@
 import CppUModel.Proofs.LeakDetector
+import CppUModel.Model.Misuse
 /-!
 # C06 — memory misuse is reported exactly
 
@@ -437,6 +438,217 @@ theorem overloads_never_free_inline_record_partial (c : Current) (g : Family) (s
   · rw [htc] at h; exact absurd h (by decide)
   · exact hlay h2 h
 
+/-! ## the misuse path as REGENERATED from the source (`Gen/MisuseCode.lean`, interpreted by `Model/Misuse.lean`)
+
+Everything above is stated about the hand model (`dealloc`, `checkForCorruption`, `invalidateMemory`).  The theorems of this
+section say that the statement lists, tables and strings extracted from the source at check time, executed by the
+interpreters of `Model/Misuse.lean`, ARE that hand model — so the classification, poisoning and transparency theorems speak
+about what `MemoryLeakDetector.cpp` / `TestMemoryAllocator.cpp` say today. -/
+
+section Regenerated
+open Misuse
+
+/-- the three category lines are pairwise different and each is decoded to its own category -/
+theorem category_lines_decodable (k : FailKind) : kindOfMessage (categoryLine k) = some k := by
+  cases k <;> decide
+
+/-- the three report functions of the source carry exactly the three categories the property names; only the non-allocated
+    report takes its allocation side from `"<unknown>", 0, 0, NullUnknownAllocator` -/
+theorem report_messages_are_the_categories :
+    Gen.Misuse.reportFns.map (fun r => (r.name, kindOfMessage r.message, r.allocFromNode)) =
+      [("reportDeallocateNonAllocatedMemoryFailure", some FailKind.nonAllocated, false),
+       ("reportAllocationDeallocationMismatchFailure", some FailKind.mismatch, true),
+       ("reportMemoryCorruptionFailure", some FailKind.corruption, true)] := by decide
+
+/-- `NullUnknownAllocator` with the regenerated name strings is the allocator the model prints in the non-allocated report -/
+theorem null_unknown_regenerated : nullUnknownGen = Allocator.nullUnknown := by decide
+
+/-- `checkForCorruption` as regenerated (order `mismatch first, then the guard bytes, then the separate record`, the `else if`s,
+    `allocator->actualAllocator()` on the releasing side) is the modelled one, for every record, allocator and flag -/
+theorem checkForCorruption_regenerated (tc : Bool) (n : Node) (file : String) (line : Nat) (a : Allocator) (sep : Bool) :
+    checkGen tc n file line a sep = checkForCorruption tc n file line a sep := by
+  unfold checkGen checkForCorruption
+  simp only [Gen.Misuse.checkChain, runChain, condHolds, actEvs]
+  cases h1 : matching tc n.allocator a <;> cases h2 : validGuard n <;> cases sep <;>
+    simp [reportEv, reportFn, Gen.Misuse.reportFns, kindOfMessage, categoryLine, failEv]
+
+/-- `deallocMemory` as regenerated (NULL first, `removeNode`, non-allocated report and return, then — for an allocator object
+    that is alive — size read, `checkForCorruption`, `free_memory`, in this order) is the modelled `dealloc` -/
+theorem deallocMemory_regenerated (s : State) (a : Allocator) (addr : Nat) (file : String) (line : Nat) (sep : Bool) :
+    deallocGen false s a addr file line sep = dealloc s a addr file line sep := by
+  unfold deallocGen dealloc
+  simp only [Gen.Misuse.deallocStmts, List.foldl, stmtStep]
+  by_cases hz : addr = 0
+  · simp [hz]
+  · cases hr : s.table.retrieveNode addr with
+    | none =>
+      simp [hz, hr, reportEv, reportFn, Gen.Misuse.reportFns, kindOfMessage, categoryLine, nonAllocatedEv,
+        null_unknown_regenerated]
+    | some n =>
+      simp [hz, hr, bodyStep, checkForCorruption_regenerated]
+
+/-- the branch the hand model does not have: when `allocator->hasBeenDestroyed()` answers true the record of an outstanding
+    block is dropped, nothing is checked, reported or handed back (outside the property's quantifier: the releasing
+    allocator object is dead) -/
+theorem destroyed_allocator_release (s : State) (a : Allocator) (addr : Nat) (file : String) (line : Nat) (sep : Bool) :
+    deallocGen true s a addr file line sep =
+      if addr = 0 then (s, [])
+      else match s.table.retrieveNode addr with
+        | none => (s, [nonAllocatedEv file line a])
+        | some _ => ({ s with table := s.table.unlinkNode addr }, []) := by
+  unfold deallocGen
+  simp only [Gen.Misuse.deallocStmts, List.foldl, stmtStep]
+  by_cases hz : addr = 0
+  · simp [hz]
+  · cases hr : s.table.retrieveNode addr with
+    | none =>
+      simp [hz, hr, reportEv, reportFn, Gen.Misuse.reportFns, kindOfMessage, categoryLine, nonAllocatedEv,
+        null_unknown_regenerated]
+    | some n => simp [hz, hr]
+
+/-- `invalidateMemory` as regenerated (lookup without unlinking, fill byte, exactly `node->size_` bytes) is the modelled one -/
+theorem invalidateMemory_regenerated (s : State) (addr : Nat) : invalidateGen s addr = invalidateMemory s addr := by
+  have hp : poisonGen = poison := by
+    funext n
+    simp [poisonGen, poison, poisonLen, Gen.Misuse.invalidateLenDelta, Gen.Misuse.invalidateFill, Gen.LeakDetector.poisonByte]
+  unfold invalidateGen invalidateMemory
+  rw [hp]
+  rfl
+
+/-- the type-checking switch: `enable…` sets the flag, `disable…` clears it, a new detector has it set -/
+theorem type_checking_switch_regenerated (s : State) (hp : Nat) :
+    enableTypeCheckingGen s = enableTypeChecking s ∧ disableTypeCheckingGen s = disableTypeChecking s ∧
+    (State.init hp).typeChecking = Gen.Misuse.typeCheckingInitial := ⟨rfl, rfl, rfl⟩
+
+/-- `isOfEqualType` as regenerated is equality of the `name()` strings, which is what `matching` hands to `matchingAllocation` -/
+theorem equal_type_is_name_equality (tc : Bool) (a b : Allocator) :
+    matching tc a b =
+      Gen.LeakDetector.matchingAllocation (a.actual.id == b.actual.id) tc (Gen.Misuse.isOfEqualType b.actual.name a.actual.name) := rfl
+
+/-- The classification of a release (four disjoint iff-cases) for `deallocMemory` AS THE SOURCE HAS IT at check time. -/
+theorem dealloc_classification_regenerated (s : State) (a : Allocator) (addr : Nat) (file : String) (line : Nat) (sep : Bool)
+    (hc : ∀ n, (abs s).map addr = some n → ConsistentIds n.allocator a) :
+    (firstFail (deallocGen false s a addr file line sep).2 = none ↔
+      addr = 0 ∨ ∃ n, (abs s).map addr = some n ∧ (s.typeChecking = false ∨ family n.allocator = family a) ∧ GuardIntact n) ∧
+    (firstFail (deallocGen false s a addr file line sep).2 = some .nonAllocated ↔ addr ≠ 0 ∧ (abs s).map addr = none) ∧
+    (firstFail (deallocGen false s a addr file line sep).2 = some .mismatch ↔
+      addr ≠ 0 ∧ ∃ n, (abs s).map addr = some n ∧ s.typeChecking = true ∧ family n.allocator ≠ family a) ∧
+    (firstFail (deallocGen false s a addr file line sep).2 = some .corruption ↔
+      addr ≠ 0 ∧ ∃ n, (abs s).map addr = some n ∧ (s.typeChecking = false ∨ family n.allocator = family a) ∧ ¬ GuardIntact n) := by
+  rw [deallocMemory_regenerated]
+  exact dealloc_classification s a addr file line sep hc
+
+/-- release through a wrapper of the source with `invalidateMemory` and `deallocMemory` both taken from the regenerated lists:
+    the block comes back once, all user bytes poisoned -/
+theorem poisoned_before_release_regenerated (w : Gen.LeakDetector.ReleaseWrapper) (hw : w ∈ Gen.LeakDetector.releaseWrappers)
+    (c : Current) (s : State) (inv : s.Inv) (n : Node) (hn : n ∈ s.nodes) (file : String) (line : Nat) :
+    freedBytes (deallocGen false (invalidateGen s n.addr) (c.byGetter w.getter) n.addr
+        (if w.withLocation then file else "<unknown>") (if w.withLocation then line else 0) w.separateNode).2 =
+      [(n.addr, List.replicate n.size Gen.Misuse.invalidateFill)] := by
+  rw [deallocMemory_regenerated, invalidateMemory_regenerated]
+  have h := poisoned_before_release_all_wrappers w hw c s inv n hn file line
+  have hi : w.invalidateThenDealloc = true := release_wrappers_poison_first w hw
+  simp only [releaseBy, hi, if_true] at h
+  exact h
+
+/-! ### the allocator objects the library creates itself -/
+
+/-- the three default allocators are three different families, none of them is the `NullUnknownAllocator`'s or the base
+    class default (`CrashOnAllocationAllocator`): `new`/`delete[]`, `new[]`/`free`, … ARE mismatches -/
+theorem default_families_distinct :
+    [family defaultNew, family defaultNewArray, family defaultMalloc, family nullUnknownGen, family (crashAllocator 0)].Nodup := by
+  decide
+
+/-- concretely: with type checking on, a block of one default allocator released through another one is a mismatch, through
+    the same one (or a second object with its name) it is not -/
+theorem default_allocators_mismatch_iff (tc : Bool) :
+    matching tc defaultNew defaultNewArray = !tc ∧ matching tc defaultNewArray defaultNew = !tc ∧
+    matching tc defaultNew defaultMalloc = !tc ∧ matching tc defaultMalloc defaultNew = !tc ∧
+    matching tc defaultNewArray defaultMalloc = !tc ∧ matching tc defaultMalloc defaultNewArray = !tc ∧
+    matching tc defaultNew defaultNew = true ∧ matching tc defaultNewArray defaultNewArray = true ∧
+    matching tc defaultMalloc defaultMalloc = true := by
+  cases tc <;> decide
+
+/-- `MemoryLeakAllocator(orig).free_memory` as regenerated is a plain release through `orig` with the inline layout … -/
+theorem mla_free_is_release_through_original (i : Nat) (o : Allocator) (s : State) (addr : Nat) (file : String) (line : Nat) :
+    mlaFree (.wrap i o) o s addr file line = dealloc s o addr file line false := rfl
+
+/-- … `alloc_memory` an allocation for `orig` … -/
+theorem mla_alloc_is_alloc_for_original (i : Nat) (o : Allocator) (s : State) (size : Nat) (file : String) (line result : Nat)
+    (fill : UInt8) :
+    mlaAlloc (.wrap i o) o s size file line result fill = alloc s o size file line false result true fill := rfl
+
+/-- … hence its report is the one of a release through the wrapper object itself (`wrapper_transparent`) -/
+theorem mla_free_reports_like_the_wrapper (i : Nat) (o : Allocator) (s : State) (addr : Nat) (file : String) (line : Nat) :
+    firstFail (mlaFree (.wrap i o) o s addr file line).2 = firstFail (dealloc s (.wrap i o) addr file line false).2 := by
+  rw [mla_free_is_release_through_original]
+  exact ((wrapper_transparent s i o addr file line false).2.2.2).symm
+
+theorem firstFail_filter_not_ufree (l : List Ev) : firstFail (l.filter (fun e => !isUfree e)) = firstFail l := by
+  induction l with
+  | nil => rfl
+  | cons e rest ih =>
+    cases e with
+    | ufree a ad sz u => rw [List.filter_cons_of_neg (by simp [isUfree])]; exact ih
+    | ufreeRaw a ad sz => rw [List.filter_cons_of_neg (by simp [isUfree])]; exact ih
+    | nfree g => rw [List.filter_cons_of_neg (by simp [isUfree])]; exact ih
+    | fail k af al asz aty ff fl fty => rw [List.filter_cons_of_pos (by simp [isUfree])]; rfl
+    | _ => rw [List.filter_cons_of_pos (by simp [isUfree])]; exact ih
+
+theorem freedBytes_filter_not_ufree (l : List Ev) : freedBytes (l.filter (fun e => !isUfree e)) = [] := by
+  induction l with
+  | nil => rfl
+  | cons e rest ih =>
+    cases e with
+    | ufree a ad sz u => rw [List.filter_cons_of_neg (by simp [isUfree])]; exact ih
+    | ufreeRaw a ad sz => rw [List.filter_cons_of_neg (by simp [isUfree])]; exact ih
+    | nfree g => rw [List.filter_cons_of_neg (by simp [isUfree])]; exact ih
+    | fail k af al asz aty ff fl fty => rw [List.filter_cons_of_pos (by simp [isUfree])]; exact ih
+    | _ => rw [List.filter_cons_of_pos (by simp [isUfree])]; exact ih
+
+/-- a release THROUGH the `NullUnknownAllocator` is classified like any other release (its family is its own), and nothing is
+    handed back to the underlying allocator -/
+theorem null_allocator_release (s : State) (addr : Nat) (file : String) (line : Nat) (sep : Bool) :
+    firstFail (nullRelease s addr file line sep).2 = firstFail (dealloc s nullUnknownGen addr file line sep).2 ∧
+    freedBytes (nullRelease s addr file line sep).2 = [] :=
+  ⟨firstFail_filter_not_ufree _, freedBytes_filter_not_ufree _⟩
+
+/-- an acquisition through it tracks nothing and returns NULL -/
+theorem null_allocator_acquire (s : State) (size : Nat) (file : String) (line : Nat) (sep : Bool) :
+    (nullAcquire s size file line sep).1 = s ∧ Ev.ret 0 ∈ (nullAcquire s size file line sep).2 := by
+  unfold nullAcquire alloc
+  by_cases h : sizeOverflows size = true <;> simp [h, isUalloc]
+
+/-- `CrashOnAllocationAllocator`: `UT_CRASH()` runs exactly when the global detector's allocation number is the chosen one
+    (both `unsigned`) -/
+theorem crash_allocator_crashes_iff (seq n : Nat) : crashes seq n = true ↔ seq % 2 ^ 32 = n % 2 ^ 32 := by
+  simp [crashes, Gen.Misuse.crashCompare]
+
+/-! ### the text handed to `MemoryLeakFailure::fail` -/
+
+/-- The text of a report, for every category and every value of its fields: the category line the property names, then the
+    allocation line and the deallocation line built with the regenerated formats (statement order of `reportFailure`; the
+    reporter is called last, so it sees all three). -/
+theorem fail_text_lines (k : FailKind) (af : String) (al asz : Nat) (aty ff : String) (fl : Nat) (fty : String) :
+    failLines (.fail k af al asz aty ff fl fty) =
+      [categoryLine k,
+       format Gen.Misuse.allocLocationFormat [af, toString (toInt32 al), toString (asz % 2 ^ 64), aty],
+       format Gen.Misuse.freeLocationFormat [ff, toString (toInt32 fl), fty]] := by
+  cases k <;> rfl
+
+/-- hence the first line of the text of every report of a release decodes to the category of the event -/
+theorem fail_text_first_line_is_category (e : Ev) (k : FailKind) (h : firstFail [e] = some k) :
+    ((failLines e).head?).bind kindOfMessage = some k := by
+  cases e with
+  | fail k' af al asz aty ff fl fty =>
+    simp only [firstFail, Option.some.injEq] at h
+    subst h
+    rw [fail_text_lines]
+    exact category_lines_decodable k'
+  | _ => simp [firstFail] at h
+
+end Regenerated
+
 /-! ## non-vacuity -/
 
 def c6New : Allocator := .plain 0 "Standard New Allocator" "new" "delete"
@@ -459,5 +671,30 @@ example : firstFail (dealloc (writeByte c6State 1168 3 0x00) c6New 1168 "x" 1 fa
 example : freedBytes (release { newA := c6New, newArrayA := c6New, mallocA := c6Malloc } .malloc c6State 1241 "x" 1).2
     = [(1241, [0xCD, 0xCD])] := by decide
 example : ConsistentIds c6New c6New' := by intro h; exact absurd h (by decide)
+
+-- regenerated misuse path: concrete runs
+open Misuse in
+example : (deallocGen false c6State c6Malloc 1168 "x.c" 7 true).2 =
+    [.fail .mismatch "a.c" 1 4 "new" "x.c" 7 "free", .ufree c6Malloc 1168 4 [0xA5, 0xA5, 0xA5, 0xA5]] := by decide
+open Misuse in
+example : (deallocGen true c6State c6Malloc 1168 "x.c" 7 true).2 = [] := by decide
+open Misuse in
+example : failText (.fail .mismatch "a.c" 1 4 "new" "x.c" 7 "free") =
+    "Allocation/deallocation type mismatch\n   allocated at file: a.c line: 1 size: 4 type: new\n   deallocated at file: x.c line: 7 type: free\n" := by decide
+set_option maxRecDepth 100000 in
+open Misuse in
+example : failText (nonAllocatedEv "x.c" 9 c6New) =
+    "Deallocating non-allocated memory\n   allocated at file: <unknown> line: 0 size: 0 type: unknown\n   deallocated at file: x.c line: 9 type: delete\n" := by decide
+open Misuse in
+example : toInt32 4294967295 = -1 ∧ toInt32 2147483647 = 2147483647 := by decide
+open Misuse in
+example : firstFail (nullRelease c6State 1241 "x" 1 true).2 = some .mismatch ∧
+    firstFail (nullRelease (disableTypeChecking c6State) 1241 "x" 1 true).2 = none ∧
+    freedBytes (dealloc (disableTypeChecking c6State) c6Malloc 1241 "x" 1 true).2 ≠ [] := by decide
+open Misuse in
+example : (invalidateGen c6State 1168).table.retrieveNode 1168 = (invalidateMemory c6State 1168).table.retrieveNode 1168 ∧
+    ((invalidateGen c6State 1168).table.retrieveNode 1168).map (·.user) = some [0xCD, 0xCD, 0xCD, 0xCD] := by decide
+open Misuse in
+example : crashes 5 5 = true ∧ crashes 5 6 = false ∧ crashes (2 ^ 32 + 5) 5 = true := by decide
 
 end LeakDetector
